@@ -19,6 +19,9 @@ type SigInfo struct {
 	ArrLen    int
 	Contents  *string // HexLiteral.Value() of /Contents
 	Result    *model.SignatureValidationResult
+	DictObjNr int    // object number of the signature dictionary (/V of the field)
+	SubFilter string // /SubFilter of the signature dictionary as the reader sees it
+	TypeName  string // /Type of the signature dictionary ("" = absent)
 }
 
 // Validate parses b and runs pdfcpu.ValidateSignatures(all=true). shift is subtracted from the
@@ -58,7 +61,14 @@ func Validate(b []byte, shift int) (infos []SigInfo, err error) {
 			si := SigInfo{ObjNr: objNr, Increment: inc, DTS: sig.Type == model.SigTypeDTS}
 			if fd, e := ctx.DereferenceDict(*types.NewIndirectRef(objNr, 0)); e == nil && fd != nil {
 				if ir := fd.IndirectRefEntry("V"); ir != nil {
+					si.DictObjNr = ir.ObjectNumber.Value()
 					if sd, e := ctx.DereferenceDict(*ir); e == nil && sd != nil {
+						if n := sd.NameEntry("SubFilter"); n != nil {
+							si.SubFilter = *n
+						}
+						if n := sd.NameEntry("Type"); n != nil {
+							si.TypeName = *n
+						}
 						arr := sd.ArrayEntry("ByteRange")
 						si.ArrLen = len(arr)
 						ok := arr != nil
